@@ -17,7 +17,7 @@
 
 import re
 
-from subprocess import Popen, PIPE
+from subprocess import Popen, PIPE, STDOUT
 from array import array
 
 from ..session import Session
@@ -311,7 +311,7 @@ class Ipmitool(object):
         """Legacy call of ipmitool (will be removed in future)."""
         log().debug('Running ipmitool "%s"', cmd)
 
-        child = Popen(cmd, shell=True, stdout=PIPE)
+        child = Popen(cmd, shell=True, stdout=PIPE, stderr=STDOUT)
         output = child.communicate()[0]
 
         log().debug('return with rc=%d, output was:\n%s',
